@@ -27,9 +27,13 @@ missing_marker = st.sampled_from([None, NAN])
 
 @st.composite
 def length(draw, max_n, min_n=0, small_bias=True):
-    """Lengths with 0,1,2,3 forced to a sizeable share."""
-    if small_bias and draw(st.integers(0, 5)) == 0:
+    """Lengths with 0,1,2,3 forced to a sizeable share, and 1 in 60 up to ten times max_n."""
+    k = draw(st.integers(0, 59)) if small_bias else 1
+    if small_bias and k % 6 == 0 and k != 0:
         return draw(st.integers(min_n, max(min_n, min(3, max_n))))
+    if k == 0 and max_n >= 20:
+        # now and then a series an order of magnitude longer (size-dependent code paths, chunked carriers)
+        return draw(st.integers(max_n + 1, max_n * 10))
     return draw(st.integers(min_n, max_n))
 
 
